@@ -91,6 +91,9 @@ func runPipelineOpts(e *core.Env, name string, cases []*pgen.Case, po pipeOpts) 
 	m.Generate(bin)
 	m.WriteGlue()
 	m.Build(race)
+	if m.ModuleBuildErr != "" {
+		return p, fmt.Errorf("scratch module does not build (harness fault): %s", firstLine(m.ModuleBuildErr))
+	}
 	if execute {
 		timeout := 10 * time.Minute
 		if po.Timeout > 0 {
